@@ -318,6 +318,20 @@ type httpResult struct {
 	Raw          []byte
 }
 
+// Kill simulates the death of the node process: the poller (if still alive) is stopped without
+// any further processing and the database handle is released. The state directory stays as it is.
+func (n *Node) Kill() { n.Close() }
+
+// SafeCall is Call that converts a panic unwinding the handler into panicked=true (with the panic value).
+func (n *Node) SafeCall(method, path string, body []byte) (res httpResult, panicked bool, val any) {
+	defer func() {
+		if r := recover(); r != nil {
+			panicked, val = true, r
+		}
+	}()
+	return n.Call(method, path, body), false, nil
+}
+
 // Call performs an API request in process through the real echo router.
 func (n *Node) Call(method, path string, body []byte) (res httpResult) {
 	req := httptest.NewRequest(method, path, bytes.NewReader(body))
